@@ -323,3 +323,304 @@ Proof. cbn [check_case]. unfold ps_save_check. intros H.
   - apply andb_true_iff in E. destruct E as [E1 E2]. apply same_infos_sound in E1, E2.
     destruct E1 as [g [G1 G2]]. destruct E2 as [l2 [L1 L2]]. exists g, l2. auto.
   - exfalso. apply (H (id, 13, 0)); [|reflexivity]. apply in_or_app. right. now left. Qed.
+
+(* ================================================================== *)
+(* Pinsets: codes 14 (Marshal/Unmarshal), 15 and 10 (snapshots)        *)
+(* ================================================================== *)
+
+Lemma pinv_eqb_refl a : pinv_eqb a a = true.
+Proof. unfold pinv_eqb. now rewrite !N.eqb_refl. Qed.
+Lemma entry_eqb_refl a : entry_eqb a a = true.
+Proof. unfold entry_eqb. now rewrite N.eqb_refl, pinv_eqb_refl. Qed.
+Lemma entries_eqb_refl l : entries_eqb l l = true.
+Proof. apply list_eqb_refl. intros; apply entry_eqb_refl. Qed.
+Lemma entry_eqb_eq a b : entry_eqb a b = true -> a = b.
+Proof. destruct a as [c [x y]], b as [c' [x' y']]. unfold entry_eqb, pinv_eqb. cbn [fst snd].
+  rewrite !andb_true_iff. intros [H1 [H2 H3]]. apply N.eqb_eq in H1, H2, H3. now subst. Qed.
+Lemma entries_eqb_eq a b : entries_eqb a b = true -> a = b.
+Proof. apply list_eqb_eq. exact entry_eqb_eq. Qed.
+
+(* the canonical listing is insertion sort on the cid *)
+Definition ekey (e : entry) : nat := N.to_nat (fst e).
+(* entries strictly sorted by cid: the form in which the harness writes every pinset *)
+Definition cid_sorted (l : list entry) : Prop := StronglySorted (klt ekey) l.
+
+Lemma ins_entry_ins_by e l : ins_entry e l = ins_by ekey e l.
+Proof. induction l as [|x r IH]; [reflexivity|]. cbn [ins_entry ins_by]. rewrite IH.
+  unfold ekey. destruct (N.leb_spec (fst e) (fst x)); destruct (Nat.leb_spec (N.to_nat (fst e)) (N.to_nat (fst x))); auto; lia. Qed.
+Lemma sorted_entries_sort_by s : sorted_entries s = sort_by ekey s.
+Proof. induction s as [|e r IH]; [reflexivity|]. cbn [sorted_entries sort_by fold_right].
+  fold (sorted_entries r). fold (sort_by ekey r). now rewrite IH, ins_entry_ins_by. Qed.
+
+Lemma cid_sorted_nodup l : cid_sorted l -> keys_nodup l.
+Proof. unfold keys_nodup. induction 1 as [|x r Hs IH Hall]; [constructor|]. cbn [map]. constructor; auto.
+  intros Hin. apply in_map_iff in Hin. destruct Hin as [y [E Hy]]. rewrite Forall_forall in Hall. specialize (Hall y Hy).
+  unfold klt, ekey in Hall. rewrite E in Hall. lia. Qed.
+
+Lemma NoDup_of_keys (l : list entry) : keys_nodup l -> NoDup l.
+Proof. unfold keys_nodup. induction l as [|x r IH]; intros H; [constructor|]. cbn [map] in H. inversion H as [|? ? Hn Hr]; subst.
+  constructor; auto. intros Hin. apply Hn. now apply in_map. Qed.
+
+Lemma same_pinset_perm a b : keys_nodup a -> keys_nodup b -> same_pinset a b -> Permutation a b.
+Proof. intros Ha Hb Hs. apply NoDup_Permutation; [now apply NoDup_of_keys|now apply NoDup_of_keys|].
+  intros [c v]. split; intros H.
+  - apply aget_some_in. rewrite <- Hs. now apply aget_in.
+  - apply aget_some_in. rewrite Hs. now apply aget_in. Qed.
+
+Lemma sorted_entries_canon s pins : keys_nodup s -> cid_sorted pins -> same_pinset s pins -> sorted_entries s = pins.
+Proof. intros Hs Hp Hsame. rewrite sorted_entries_sort_by. apply sort_by_of_perm; [exact Hp|].
+  apply same_pinset_perm; auto. now apply cid_sorted_nodup. Qed.
+
+Lemma keys_nodup_nil : keys_nodup [].
+Proof. constructor. Qed.
+
+(* Marshal in any datastore order, Unmarshal onto an empty store, list: the pinset one started from *)
+Lemma roundtrip_sorted ord pins : order_oracle ord -> cid_sorted pins ->
+  sorted_entries (unmarshal (marshal ord pins) []) = pins.
+Proof. intros Ho Hp. apply sorted_entries_canon; auto.
+  - apply unmarshal_nodup, keys_nodup_nil.
+  - apply marshal_unmarshal_same; auto. now apply cid_sorted_nodup. Qed.
+Lemma order_oracle_id : order_oracle (fun x => x).
+Proof. intros s. apply Permutation_refl. Qed.
+Lemma roundtrip_sorted_id pins : cid_sorted pins -> sorted_entries (unmarshal pins []) = pins.
+Proof. intros Hp. exact (roundtrip_sorted (fun x => x) pins order_oracle_id Hp). Qed.
+
+(* ---- code 14 ---- *)
+Lemma marshal_model_passes_monitor_l id ord pins : order_oracle ord -> cid_sorted pins ->
+  check_case (id, PMarshal pins (Some (sorted_entries (unmarshal (marshal ord pins) [])))) = [].
+Proof. intros Ho Hp. cbn [check_case]. unfold marshal_check. rewrite (roundtrip_sorted ord pins Ho Hp).
+  rewrite (roundtrip_sorted (fun x => x) pins order_oracle_id Hp). cbn [oentries_eqb]. now rewrite entries_eqb_refl. Qed.
+
+Lemma marshal_monitor_sound_l id pins obs :
+  (forall c, In c (check_case (id, PMarshal pins obs)) -> snd (fst c) <> 14) -> obs = Some pins.
+Proof. cbn [check_case]. unfold marshal_check. intros H. destruct (oentries_eqb pins obs) eqn:E.
+  - destruct obs as [l|]; [|discriminate]. cbn [oentries_eqb] in E. apply entries_eqb_eq in E. now subst.
+  - exfalso. apply (H (id, 14, 0)); [|reflexivity]. apply in_or_app. right. now left. Qed.
+
+(* ---- snapshots: the table of numbered pinsets ---- *)
+Definition in_table (t : ptable) (i : N) : Prop := In i (map fst t).
+(* what the harness's interner guarantees: one row per number, every row cid-sorted, no two rows with the same content *)
+Definition table_ok (t : ptable) : Prop :=
+  NoDup (map fst t) /\ (forall i es, In (i, es) t -> cid_sorted es) /\
+  (forall i j es, In (i, es) t -> In (j, es) t -> i = j).
+
+Lemma pinset_of_in t i : NoDup (map fst t) -> in_table t i -> In (i, pinset_of t i) t.
+Proof. intros Hnd Hin. unfold in_table in Hin. apply in_map_iff in Hin. destruct Hin as [[j es] [E Hx]]. cbn [fst] in E. subst j.
+  unfold pinset_of. now rewrite (aget_in i es t Hnd Hx). Qed.
+Lemma pinset_of_sorted t i : table_ok t -> cid_sorted (pinset_of t i).
+Proof. intros [Hnd [Hs _]]. unfold pinset_of. destruct (aget i t) as [es|] eqn:E; [|constructor].
+  apply aget_some_in in E. eapply Hs; eauto. Qed.
+Lemma id_of_pinset t i : table_ok t -> in_table t i -> id_of t (pinset_of t i) = i.
+Proof. intros [Hnd [Hs Hinj]] Hin. pose proof (pinset_of_in t i Hnd Hin) as Hx. unfold id_of.
+  destruct (find (fun x : N * list entry => entries_eqb (snd x) (pinset_of t i)) t) as [[j es]|] eqn:F.
+  - apply find_some in F. destruct F as [F1 F2]. cbn [snd] in F2. apply entries_eqb_eq in F2. subst es. cbn [fst]. eapply Hinj; eauto.
+  - exfalso. pose proof (find_none _ _ F _ Hx) as Hn. cbn [snd] in Hn. now rewrite entries_eqb_refl in Hn. Qed.
+
+(* the two directions of the payload translation used by snap_check *)
+Definition encf (t : ptable) (f : fold_t) : folder snapshot :=
+  match f with (m, Some i) => (m, Some (pinset_of t i)) | (m, None) => (m, None) end.
+Definition enc (t : ptable) (f : option fold_t) : option (folder snapshot) := option_map (encf t) f.
+Definition dec (t : ptable) (f : option (folder snapshot)) : option fold_t :=
+  match f with
+  | Some (m, Some es) => Some (m, Some (id_of t (sorted_entries (unmarshal es []))))
+  | Some (m, None) => Some (m, None)
+  | None => None end.
+Definition fold_ok (t : ptable) (f : option fold_t) : Prop := forall m i, f = Some (m, Some i) -> in_table t i.
+
+Lemma dec_enc t f : table_ok t -> fold_ok t f -> dec t (enc t f) = f.
+Proof. intros Ht Hf. destruct f as [[m [i|]]|]; cbn [enc option_map encf dec]; auto.
+  rewrite (roundtrip_sorted_id _ (pinset_of_sorted t i Ht)). rewrite id_of_pinset; auto. eapply Hf; eauto. Qed.
+
+Lemma from_listing_live t l : live (from_listing t l) = enc t (hd None l).
+Proof. unfold from_listing. cbn [live]. destruct (hd None l) as [[m [i|]]|]; reflexivity. Qed.
+Lemma from_listing_olds t l k : olds (from_listing t l) k = enc t (to_olds l k).
+Proof. unfold from_listing. cbn [olds]. destruct (to_olds l k) as [[m [i|]]|]; reflexivity. Qed.
+Lemma snap_listing_dec t w d : snap_listing t w d = map (dec t) (live d :: map (olds d) (seq O w)).
+Proof. unfold snap_listing. apply map_ext. intros [[m [es|]]|]; reflexivity. Qed.
+
+(* ---- the directory at the level of pinset numbers, and its relation to the directory of payloads ---- *)
+Definition sop_ids (keep : nat) (op : sop) (d : dir N) : dir N :=
+  match op with
+  | OSave i => snapshot_save keep i d
+  | OClean => cleanup keep d
+  | OBare m => mk_dir (Some (m, None)) (olds d)
+  | OMore i => mk_dir (Some (match live d with Some (m, _) => m | None => 0 end, Some i)) (olds d)
+  | OStart => d
+  end.
+Definition dir_rel (t : ptable) (dn : dir N) (ds : dir snapshot) : Prop :=
+  live ds = enc t (live dn) /\ forall k, olds ds k = enc t (olds dn k).
+
+Section Rel.
+Context {A B : Type} (g : A -> B).
+Lemma prefix_rel (oa : nat -> option A) (ob : nat -> option B) : (forall k, ob k = option_map g (oa k)) ->
+  forall keep from, prefix ob keep from = prefix oa keep from.
+Proof. intros H. induction keep as [|n IH]; intros from; [reflexivity|]. cbn [prefix]. rewrite H.
+  destruct (oa from); cbn [option_map]; [now rewrite IH|reflexivity]. Qed.
+Lemma rotate_rel keep (f : A) (oa : nat -> option A) (ob : nat -> option B) : (forall k, ob k = option_map g (oa k)) ->
+  forall j, rotate keep (g f) ob j = option_map g (rotate keep f oa j).
+Proof. intros H j. unfold rotate. rewrite (prefix_rel oa ob H). set (n := prefix oa keep 0).
+  unfold upd at 1 3. destruct (Nat.eqb j 0); [reflexivity|]. rewrite !shift_spec.
+  destruct (Nat.eqb j 0); [destruct (keep <=? n)%nat|].
+  - destruct (Nat.eqb (n - 1) 0); [|reflexivity]. unfold upd. destruct (Nat.eqb 0 (n - 1)); [reflexivity|apply H].
+  - destruct (Nat.eqb n 0); [apply H|reflexivity].
+  - destruct (keep <=? n)%nat.
+    + destruct (j <=? n - 1)%nat; unfold upd.
+      * destruct (Nat.eqb (j - 1) (n - 1)); [reflexivity|apply H].
+      * destruct (Nat.eqb j (n - 1)); [reflexivity|apply H].
+    + destruct (j <=? n)%nat; apply H. Qed.
+End Rel.
+
+Lemma cleanup_rel t keep dn ds : dir_rel t dn ds -> dir_rel t (cleanup keep dn) (cleanup keep ds).
+Proof. destruct dn as [ln on], ds as [ls os]. unfold dir_rel. cbn [live olds]. intros [Hl Ho]. subst ls.
+  destruct ln as [[m [i|]]|]; cbn [enc option_map encf cleanup make_backup live olds]; split; auto.
+  intros k. exact (rotate_rel (encf t) keep (m, Some i) on os Ho k). Qed.
+Lemma snapshot_save_rel t keep i dn ds : dir_rel t dn ds ->
+  dir_rel t (snapshot_save keep i dn) (snapshot_save keep (pinset_of t i) ds).
+Proof. intros H. pose proof (cleanup_rel t keep dn ds H) as Hc. destruct dn as [ln on], ds as [ls os].
+  unfold dir_rel in *. cbn [live olds] in *. destruct H as [Hl Ho]. subst ls.
+  destruct ln as [[m [j|]]|]; cbn [enc option_map encf snapshot_save live olds] in *; split; auto. exact (proj2 Hc). Qed.
+Lemma sop_rel t keep op dn ds : dir_rel t dn ds -> dir_rel t (sop_ids keep op dn) (sop_model keep t op ds).
+Proof. intros H. destruct op as [i| |m|i|]; cbn [sop_ids sop_model].
+  - unfold marshal. now apply snapshot_save_rel.
+  - now apply cleanup_rel.
+  - destruct H as [_ Ho]. split; auto.
+  - destruct H as [Hl Ho]. split; auto. cbn [live]. rewrite Hl. unfold marshal.
+    destruct (live dn) as [[m [j|]]|]; reflexivity.
+  - exact H. Qed.
+Lemma from_listing_rel t l : dir_rel t (to_dir l) (from_listing t l).
+Proof. split; [apply from_listing_live|apply from_listing_olds]. Qed.
+
+(* every pinset number in a directory is a row of the table *)
+Definition dir_ok (t : ptable) (d : dir N) : Prop := fold_ok t (live d) /\ forall k, fold_ok t (olds d k).
+Definition listing_ok (t : ptable) (l : listing) : Prop := forall f, In f l -> fold_ok t f.
+Definition op_ok (t : ptable) (op : sop) : Prop := match op with OSave i | OMore i => in_table t i | _ => True end.
+
+Lemma fold_ok_none t : fold_ok t None.
+Proof. intros m i H. discriminate. Qed.
+Lemma to_dir_ok t l : listing_ok t l -> dir_ok t (to_dir l).
+Proof. intros H. split.
+  - cbn [to_dir live]. destruct l as [|f r]; [apply fold_ok_none|]. apply H. now left.
+  - intros k. cbn [to_dir olds]. unfold to_olds. destruct (nth_in_or_default k (tl l) None) as [Hin|E].
+    + apply H. destruct l; [destruct Hin|]. now right.
+    + rewrite E. apply fold_ok_none. Qed.
+Lemma listing_of_ok t w d : dir_ok t d -> listing_ok t (listing_of w d).
+Proof. intros [H1 H2] f [<-|Hin]; auto. apply in_map_iff in Hin. destruct Hin as [k [<- _]]. apply H2. Qed.
+Lemma cleanup_ok t keep d : (1 <= keep)%nat -> dir_ok t d -> dir_ok t (cleanup keep d).
+Proof. intros Hk. destruct d as [l o]. intros [H1 H2]. cbn [live olds] in *.
+  destruct l as [[m [i|]]|]; cbn [cleanup make_backup live olds]; split; auto using fold_ok_none.
+  intros k m' i' E. destruct (rotate_nothing_new keep (m, Some i) o k (m', Some i') Hk E) as [Ef|[k' Ek]].
+  - injection Ef as -> ->. now apply (H1 m i).
+  - now apply (H2 k' m' i'). Qed.
+Lemma sop_ids_ok t keep op d : (1 <= keep)%nat -> op_ok t op -> dir_ok t d -> dir_ok t (sop_ids keep op d).
+Proof. intros Hk Hop Hd. destruct op as [i| |m|i|]; cbn [sop_ids op_ok] in *.
+  - pose proof (cleanup_ok t keep d Hk Hd) as Hc. destruct d as [l o]. destruct Hd as [H1 H2]. cbn [live olds] in *.
+    assert (Hnew : forall m, fold_ok t (Some (m, Some i))) by (intros m m' i' E; injection E as _ <-; exact Hop).
+    destruct l as [[m [j|]]|]; cbn [snapshot_save live olds]; (split; cbn [live olds]; [apply Hnew|first [exact H2|exact (proj2 Hc)]]).
+  - now apply cleanup_ok.
+  - destruct Hd as [_ H2]. split; auto. intros m' i' E. discriminate.
+  - destruct Hd as [_ H2]. split; auto. intros m' i' E. cbn [live] in E. injection E as _ <-. exact Hop.
+  - exact Hd. Qed.
+
+(* the model's observation of one operation *)
+Definition snap_model_step (keep : nat) (t : ptable) (before : listing) (op : sop) : listing * list entry * list entry :=
+  let d' := sop_model keep t op (from_listing t before) in
+  (snap_listing t (window before) d', sorted_entries (offline_state d' []),
+   sorted_entries (match last_state_raw d' with Some es => unmarshal es [] | None => [] end)).
+Fixpoint snap_model_obs (keep : nat) (t : ptable) (before : listing) (ops : list sop) : list (listing * list entry * list entry) :=
+  match ops with
+  | [] => []
+  | op :: r => let o := snap_model_step keep t before op in o :: snap_model_obs keep t (fst (fst o)) r
+  end.
+
+(* the listing the model leaves is the listing of the number-level directory *)
+Lemma snap_model_listing keep t before op : (1 <= keep)%nat -> table_ok t -> listing_ok t before -> op_ok t op ->
+  fst (fst (snap_model_step keep t before op)) = listing_of (window before) (sop_ids keep op (to_dir before)).
+Proof. intros Hk Ht Hb Hop. unfold snap_model_step. cbn [fst]. rewrite snap_listing_dec.
+  destruct (sop_rel t keep op _ _ (from_listing_rel t before)) as [Rl Ro].
+  pose proof (sop_ids_ok t keep op _ Hk Hop (to_dir_ok t before Hb)) as [Ol Oo].
+  unfold listing_of. cbn [map]. rewrite Rl, dec_enc by auto. f_equal. rewrite map_map. apply map_ext.
+  intros k. rewrite Ro. now apply dec_enc. Qed.
+
+Lemma snap_model_live keep t before op :
+  live (sop_model keep t op (from_listing t before)) = enc t (live (sop_ids keep op (to_dir before))).
+Proof. exact (proj1 (sop_rel t keep op _ _ (from_listing_rel t before))). Qed.
+
+(* what is read offline after the operation, when the live folder holds pinset number i *)
+Lemma snap_model_reads keep t before op m i : table_ok t ->
+  live (sop_ids keep op (to_dir before)) = Some (m, Some i) ->
+  snd (fst (snap_model_step keep t before op)) = pinset_of t i /\ snd (snap_model_step keep t before op) = pinset_of t i.
+Proof. intros Ht E. unfold snap_model_step. cbn [fst snd]. unfold offline_state, last_state_raw.
+  rewrite snap_model_live, E. cbn [enc option_map encf]. split; apply roundtrip_sorted_id, pinset_of_sorted, Ht. Qed.
+
+Lemma hd_to_dir (l : listing) : live (to_dir l) = hd None l.
+Proof. reflexivity. Qed.
+Lemma to_dir_eta (l : listing) : to_dir l = mk_dir (hd None l) (to_olds l).
+Proof. reflexivity. Qed.
+
+(* one operation of the model raises no code *)
+Lemma snap_step_model_passes id keep t before op : (1 <= keep)%nat -> (keep <= window before)%nat ->
+  table_ok t -> listing_ok t before -> op_ok t op ->
+  let o := snap_model_step keep t before op in
+  forall ops' obs', snap_check id keep t before (op :: ops') (o :: obs') = snap_check id keep t (fst (fst o)) ops' obs'.
+Proof. intros Hk Hw Ht Hb Hop o ops' obs'.
+  pose proof (snap_model_listing keep t before op Hk Ht Hb Hop) as Hl. fold o in Hl.
+  destruct o as [[after off] raw] eqn:Eo. cbn [fst snd] in Hl. cbn [snap_check fst]. cbv zeta.
+  assert (E1 : after = snap_listing t (window before) (sop_model keep t op (from_listing t before))) by (unfold o, snap_model_step in Eo; now injection Eo).
+  assert (E2 : off = sorted_entries (offline_state (sop_model keep t op (from_listing t before)) [])) by (unfold o, snap_model_step in Eo; now injection Eo).
+  assert (E3 : raw = sorted_entries (match last_state_raw (sop_model keep t op (from_listing t before)) with Some es => unmarshal es [] | None => [] end))
+    by (unfold o, snap_model_step in Eo; now injection Eo).
+  rewrite <- E1, <- E2, <- E3, listing_eqb_refl, !entries_eqb_refl. cbn [andb app].
+  (* code 15 *)
+  assert (C15 : match op with
+       | OSave i | OMore i => if entries_eqb off (pinset_of t i) && entries_eqb raw (pinset_of t i) then [] else [(id, 15, 0)]
+       | OStart => match hd None before with
+                   | Some (_, Some i) => if entries_eqb off (pinset_of t i) then [] else [(id, 15, 0)]
+                   | _ => [] end
+       | _ => [] end = []).
+  { assert (Hrd : forall m i, live (sop_ids keep op (to_dir before)) = Some (m, Some i) -> off = pinset_of t i /\ raw = pinset_of t i).
+    { intros m i E. pose proof (snap_model_reads keep t before op m i Ht E) as R. fold o in R. rewrite Eo in R. exact R. }
+    destruct op as [i| |m|i|]; auto.
+    - assert (exists m, live (sop_ids keep (OSave i) (to_dir before)) = Some (m, Some i)) as [m E].
+      { cbn [sop_ids]. destruct (to_dir before) as [[[m [j|]]|] ob]; cbn [snapshot_save live]; eauto. }
+      destruct (Hrd m i E) as [-> ->]. now rewrite entries_eqb_refl.
+    - destruct (Hrd _ i eq_refl) as [-> ->]. now rewrite entries_eqb_refl.
+    - destruct (hd None before) as [[m [i|]]|] eqn:Eh; auto.
+      destruct (Hrd m i Eh) as [-> _]. now rewrite entries_eqb_refl. }
+  rewrite C15. cbn [app].
+  (* code 10 *)
+  assert (C10 : match sop_step op before with
+       | Some st => if bk_step_okb keep before st (match op with OSave _ => set_live None after | _ => after end) then [] else [(id, 10, 0)]
+       | None => [] end = []).
+  { destruct (sop_step op before) as [st|] eqn:Es; auto.
+    assert (Hst : exists m i, hd None before = Some (m, Some i) /\ st = (Some (m, Some i), true) /\
+                   (op = OClean \/ exists j, op = OSave j)).
+    { unfold sop_step in Es. destruct op as [j| |m0|j|]; try discriminate; destruct (hd None before) as [[m [i|]]|] eqn:Eh; try discriminate;
+        injection Es as <-; eauto 7. }
+    destruct Hst as [m [i [Eh [-> Hop']]]].
+    assert (Hgoal : (match op with OSave _ => set_live None after | _ => after end) = bk_model_after keep before (Some (m, Some i), true)).
+    { unfold bk_model_after, run_step. cbn [fst snd]. rewrite Hl, to_dir_eta, Eh. cbn [olds].
+      destruct Hop' as [->|[j ->]]; cbn [sop_ids]; [reflexivity|].
+      cbn [snapshot_save live]. unfold listing_of, set_live. cbn [tl live olds cleanup make_backup]. reflexivity. }
+    rewrite Hgoal, bk_step_model_passes by assumption. reflexivity. }
+  rewrite C10. reflexivity. Qed.
+
+Lemma snap_check_model_passes id keep t : (1 <= keep)%nat -> table_ok t -> forall ops before,
+  (keep <= window before)%nat -> listing_ok t before -> (forall op, In op ops -> op_ok t op) ->
+  snap_check id keep t before ops (snap_model_obs keep t before ops) = [].
+Proof. intros Hk Ht. induction ops as [|op r IH]; intros before Hw Hb Hops; [reflexivity|].
+  cbn [snap_model_obs]. cbv zeta.
+  assert (Hop : op_ok t op) by (apply Hops; now left).
+  rewrite (snap_step_model_passes id keep t before op Hk Hw Ht Hb Hop).
+  pose proof (snap_model_listing keep t before op Hk Ht Hb Hop) as Hl.
+  apply IH.
+  - rewrite Hl. now rewrite window_listing_of.
+  - rewrite Hl. apply listing_of_ok. apply sop_ids_ok; auto. now apply to_dir_ok.
+  - intros op' H'. apply Hops. now right. Qed.
+
+(* completeness for the snapshot kind: every retention keep >= 1, every table the interner can produce, every listed set of
+   backups (at least keep listed, every number a row of the table), every history of operations *)
+Lemma snap_model_passes_monitor_l id keep t olds0 ops : (1 <= keep)%nat -> (keep <= length olds0)%nat -> table_ok t ->
+  listing_ok t olds0 -> (forall op, In op ops -> op_ok t op) ->
+  check_case (id, PSnap keep t olds0 ops (snap_model_obs keep t (None :: olds0) ops)) = [].
+Proof. intros Hk Hw Ht Hb Hops. cbn [check_case]. apply snap_check_model_passes; auto.
+  intros f [<-|Hf]; [apply fold_ok_none|now apply Hb]. Qed.
